@@ -25,5 +25,5 @@ SPEC = dict(
              "ReversePurgeItemHashMap's slot layout is modelled and tied by the correspondence check only; that it implements "
              "the finite map of the abstract model is checked per run (lock step), not proved",
              "u64 overflow of weights is outside the model (unbounded N); generated totals stay below 2^62"],
-    assumptions=["weights are u64 values whose total fits u64 (the crate adds them unchecked in release, panics in debug)"],
+    assumptions=["Frequent Items: no probe run of the hash map is longer than the drift limit (1024 occupied slots in debug builds: debug_assert; 65535 in release builds: the u16 drift wraps beyond and lookups go wrong) - needs items chosen for their hashes; known findings C17-freq-drift-limit / C14-freq-drift-limit", "weights are u64 values whose total fits u64 (the crate adds them unchecked in release, panics in debug)"],
 )
